@@ -163,6 +163,17 @@ def run(rep: Report) -> None:
                  lambda e, K, mk=mk, KK=KK: ({e["node"]("n"): {K[KK]: e[mk]("x")},
                                               e["node"]("m"): {K[KK]: e[mk]("y")}}, {}), f"{meth}-two")
 
+    scenario("add_path over an existing edge replaces its link (like add_link does)", "add_path",
+             lambda e: [("add_link", (e["node"]("n1"), e["link"]("l_old"), e["node"]("n2"))),
+                        ("add_path", ((e["node"]("n1"), e["link"]("l_new"), e["node"]("n2")),))],
+             lambda e, K: ({e["node"]("n1"): {}, e["node"]("n2"): {}},
+                           {(e["node"]("n1"), e["node"]("n2")): {K[L]: e["link"]("l_new")}}), "add_path-replace")
+    scenario("add_path with a self-loop over an existing self-loop replaces its link", "add_path",
+             lambda e: [("add_link", (e["node"]("n1"), e["link"]("l_old"), e["node"]("n1"))),
+                        ("add_path", ((e["node"]("n1"), e["link"]("l_new"), e["node"]("n1")),))],
+             lambda e, K: ({e["node"]("n1"): {}},
+                           {(e["node"]("n1"), e["node"]("n1")): {K[L]: e["link"]("l_new")}}), "add_path-replace-loop")
+
     # ---------------------------------------------- (b) readers see what writers wrote
     gw = GWorld(prog, "casadi")
     it = gw.interp()
